@@ -517,3 +517,75 @@ pub fn clone_from_law<T: Clone + PartialEq + std::fmt::Debug>(l: &mut Law, what:
         }
     }
 }
+
+// ---------------------------------------------------------------------------------------------
+// a deserializer of a format that is not self-describing
+// ---------------------------------------------------------------------------------------------
+
+/// What bincode / postcard style formats look like to a `Deserialize` impl: the data carries no type tags, so only the *typed*
+/// requests (`deserialize_str`, `deserialize_string`, `deserialize_bytes`, …) can be answered and `deserialize_any` is an error.
+/// The payload is one string.
+pub struct HintOnly<'de> {
+    pub s: &'de str,
+    /// hand the visitor a borrow of the input (`visit_borrowed_str`) rather than a transient one (`visit_str`)
+    pub borrowed: bool,
+}
+
+macro_rules! hint_only_refuse {
+    ($($m:ident)*) => {$(
+        fn $m<V: serde::de::Visitor<'de>>(self, _v: V) -> Result<V::Value, Self::Error> {
+            Err(<Self::Error as serde::de::Error>::custom("the payload is a string"))
+        }
+    )*};
+}
+
+impl<'de> serde::Deserializer<'de> for HintOnly<'de> {
+    type Error = serde::de::value::Error;
+    fn deserialize_any<V: serde::de::Visitor<'de>>(self, _v: V) -> Result<V::Value, Self::Error> {
+        Err(<Self::Error as serde::de::Error>::custom("this format is not self-describing: deserialize_any is not supported"))
+    }
+    fn deserialize_ignored_any<V: serde::de::Visitor<'de>>(self, _v: V) -> Result<V::Value, Self::Error> {
+        Err(<Self::Error as serde::de::Error>::custom("this format is not self-describing: deserialize_ignored_any is not supported"))
+    }
+    fn deserialize_str<V: serde::de::Visitor<'de>>(self, v: V) -> Result<V::Value, Self::Error> {
+        if self.borrowed { v.visit_borrowed_str(self.s) } else { v.visit_str(self.s) }
+    }
+    fn deserialize_string<V: serde::de::Visitor<'de>>(self, v: V) -> Result<V::Value, Self::Error> {
+        v.visit_string(self.s.to_owned())
+    }
+    fn deserialize_identifier<V: serde::de::Visitor<'de>>(self, v: V) -> Result<V::Value, Self::Error> {
+        self.deserialize_str(v)
+    }
+    fn deserialize_bytes<V: serde::de::Visitor<'de>>(self, v: V) -> Result<V::Value, Self::Error> {
+        if self.borrowed { v.visit_borrowed_bytes(self.s.as_bytes()) } else { v.visit_bytes(self.s.as_bytes()) }
+    }
+    fn deserialize_byte_buf<V: serde::de::Visitor<'de>>(self, v: V) -> Result<V::Value, Self::Error> {
+        v.visit_byte_buf(self.s.as_bytes().to_vec())
+    }
+    fn deserialize_option<V: serde::de::Visitor<'de>>(self, v: V) -> Result<V::Value, Self::Error> {
+        v.visit_some(self)
+    }
+    fn deserialize_newtype_struct<V: serde::de::Visitor<'de>>(self, _name: &'static str, v: V) -> Result<V::Value, Self::Error> {
+        v.visit_newtype_struct(self)
+    }
+    hint_only_refuse! { deserialize_bool deserialize_i8 deserialize_i16 deserialize_i32 deserialize_i64 deserialize_i128 deserialize_u8 deserialize_u16
+        deserialize_u32 deserialize_u64 deserialize_u128 deserialize_f32 deserialize_f64 deserialize_char deserialize_unit deserialize_seq deserialize_map }
+    fn deserialize_unit_struct<V: serde::de::Visitor<'de>>(self, _n: &'static str, _v: V) -> Result<V::Value, Self::Error> {
+        Err(<Self::Error as serde::de::Error>::custom("the payload is a string"))
+    }
+    fn deserialize_tuple<V: serde::de::Visitor<'de>>(self, _l: usize, _v: V) -> Result<V::Value, Self::Error> {
+        Err(<Self::Error as serde::de::Error>::custom("the payload is a string"))
+    }
+    fn deserialize_tuple_struct<V: serde::de::Visitor<'de>>(self, _n: &'static str, _l: usize, _v: V) -> Result<V::Value, Self::Error> {
+        Err(<Self::Error as serde::de::Error>::custom("the payload is a string"))
+    }
+    fn deserialize_struct<V: serde::de::Visitor<'de>>(self, _n: &'static str, _f: &'static [&'static str], _v: V) -> Result<V::Value, Self::Error> {
+        Err(<Self::Error as serde::de::Error>::custom("the payload is a string"))
+    }
+    fn deserialize_enum<V: serde::de::Visitor<'de>>(self, _n: &'static str, _f: &'static [&'static str], _v: V) -> Result<V::Value, Self::Error> {
+        Err(<Self::Error as serde::de::Error>::custom("the payload is a string"))
+    }
+    fn is_human_readable(&self) -> bool {
+        false
+    }
+}
